@@ -24,6 +24,11 @@ DIRECTED = [
      [{'all': False, 'check': 'CheckECKeySmallDifference', 'batch': ['s1', 's2', 's3']},
       {'all': False, 'check': 'CheckECKeySmallDifference', 'batch': ['s3', 's4', 's1', 's2']},
       {'all': False, 'check': 'CheckECKeySmallDifference', 'batch': ['s2', 's1', 's4', 's3']}]),
+    # logarithms on the last entry of the baby-step table for the batch size at hand
+    ('ec', 'table-edge', {'s1': 'weakprivateedge2', 's2': 'healthy', 's3': 'weakprivateedge4', 's4': 'healthy', 's5': 'healthy', 's6': 'weakprivateedge1'},
+     [{'all': False, 'check': 'CheckWeakECPrivateKey', 'batch': ['s1', 's2']},
+      {'all': False, 'check': 'CheckWeakECPrivateKey', 'batch': ['s3', 's2', 's4', 's5']},
+      {'all': False, 'check': 'CheckWeakECPrivateKey', 'batch': ['s6']}]),
     ('rsa', 'lhw-suspicion-first', {'s1': 'lhwA', 's2': 'healthy', 's3': 'small'},
      [{'all': False, 'check': 'CheckLowHammingWeight', 'batch': ['s1', 's2', 's3']}]),
     ('rsa', 'mixed-sizes', {'s1': 'small', 's2': 'pattern4096', 's3': 'healthy'},
